@@ -55,6 +55,71 @@ var entryBundles = map[string]func([]byte, callSink){
 	"schema": bundleSchema, "enum": bundleEnum, "regex": bundleRegex, "jsondoc": bundleJSONDoc, "number": bundleNumber,
 }
 
+func init() { entryBundles["nesting"] = bundleNesting }
+
+// bundleNesting: the input is a descriptor "<shape>:<depth>:<entry>" of a text that nests
+// one container in another depth times (kept as a descriptor so that witnesses and replay
+// files stay small); shapes: arr = [[..]], obj = {"k":{"k":..1}}, mix alternates them.
+func bundleNesting(in []byte, sink callSink) {
+	f := strings.Split(string(in), ":")
+	if len(f) != 3 {
+		return
+	}
+	d, _ := strconv.Atoi(f[1])
+	var open, close strings.Builder
+	for i := 0; i < d; i++ {
+		switch {
+		case f[0] == "arr" || (f[0] == "mix" && i%2 == 0):
+			open.WriteString("[")
+			close.WriteString("]")
+		default:
+			open.WriteString(`{"k":`)
+			close.WriteString("}")
+		}
+	}
+	mid := "1"
+	if f[0] == "arr" {
+		mid = ""
+	}
+	rev := []byte(close.String())
+	for i, j := 0, len(rev)-1; i < j; i, j = i+1, j-1 {
+		rev[i], rev[j] = rev[j], rev[i]
+	}
+	text := []byte(open.String() + mid + string(rev))
+	if g, ok := entryBundles[f[2]]; ok && f[2] != "nesting" {
+		g(text, sink)
+	}
+}
+
+// nestingLadder: containers nested ever deeper. Time that doubles with every level runs
+// into the watchdog at a depth of a few dozen; recursion without a limit runs out of stack
+// (in the workers: 64 MiB) at some depth - the deepest rungs belong to the thorough tier.
+func (r *spaceRunner) nestingLadder() {
+	depths := []int{1, 2, 8, 16, 24, 32, 48, 64, 128, 1000, 4000}
+	if r.w.Thorough() {
+		depths = append(depths, 20000, 100000)
+	}
+	for _, shape := range []string{"arr", "obj", "mix"} {
+		for _, e := range []string{"schema", "jsondoc"} {
+			broken := false
+			for _, d := range depths {
+				if d > 4000 && e == "schema" && shape != "arr" {
+					continue // (one shape is enough where a rung costs seconds)
+				}
+				if broken {
+					r.ord++ // a ladder that broke at one rung is not climbed further (ordinals stay stable)
+					continue
+				}
+				r.bytesCase("nesting", []byte(fmt.Sprintf("%s:%d:%s", shape, d, e)))
+				r.w.S.Nontrivial++
+				if r.w.ResumeSet && r.w.ResumeAfter == r.ord {
+					broken = true // this very rung killed the previous worker
+				}
+			}
+		}
+	}
+}
+
 // spaceRunner owns the case ordinal used for crash containment.
 type spaceRunner struct {
 	// inputsOnly (C16): leave out calls whose failure is a programming error of the
@@ -600,7 +665,7 @@ func init() {
 	Register(&Prop{
 		ID:        "C02",
 		Technique: "bounded exhaustive token strings + explicit-state search over the three real scanners and the number recogniser (every state x byte class x end of input) + every truncation of the test corpus + exhaustive small reference graphs, each through the full call bundle in crash-contained worker processes",
-		Rule: "per entry point (schema, enum rule, regex, JSON document, number): all strings of <= N tokens; all reachable abstract scanner states x byte classes (both scanner modes); every prefix of every string literal of the repository's tests; all projects of <=3 self/mutually referencing types from 10 reference forms x every registered subset; exponent grid; 21 formatter-significant fragments in each of 38 places whose diagnostics quote user text. " +
+		Rule: "per entry point (schema, enum rule, regex, JSON document, number): all strings of <= N tokens; all reachable abstract scanner states x byte classes (both scanner modes); every prefix of every string literal of the repository's tests; all projects of <=3 self/mutually referencing types from 10 reference forms x every registered subset; exponent grid; a nesting ladder (arrays / objects / both, depth 1..4000, thorough 100000, as schema and as JSON document); 21 formatter-significant fragments in each of 38 places whose diagnostics quote user text. " +
 			"Bundle: Len, Check, Example, GetAST, UsedUserTypes, AddType/AddRule, NextLexeme loop, NewNumber, GuessSchemaType, OpenAPI of accepted schemas. non-trivial = distinct inputs executed",
 		Bounds: func(tier string) map[string]any {
 			b := c02Bounds(tier)
@@ -612,6 +677,7 @@ func init() {
 			r := &spaceRunner{w: w, mk: func(entry string, in []byte, wit []byte) callSink { return c02Sink(w, entry, in, wit) }}
 			if w.Shard == 16 {
 				r.exponentGrid()
+				r.nestingLadder()
 				r.meshFamily()
 				r.choiceMeshFamily()
 				return
